@@ -35,8 +35,13 @@ def fullyAssigned (a : List Nat) : Bool := a.all (· ≠ 0)
 def specApply (a : List Nat) (p : List Move) : List Nat :=
   p.foldl (fun a m => a.set m.hs m.dst) a
 
+/-- the distinct elements of a list (last occurrences, in order) -/
+def distinct : List Nat → List Nat
+  | [] => []
+  | x :: xs => if xs.contains x then distinct xs else x :: distinct xs
+
 /-- distinct non-zero slot ids of the table (any order) -/
-def specActive (a : List Nat) : List Nat := (a.filter (· ≠ 0)).eraseDups
+def specActive (a : List Nat) : List Nat := distinct (a.filter (· ≠ 0))
 
 /-- each hash slot at most once, only away from its current owner -/
 def planValid (a : List Nat) (p : List Move) : Bool :=
